@@ -136,6 +136,9 @@ def shipped_binary_pass(rep, d, tier, rng):
     progs += [("device-handled:%d" % i, "ON ERROR GOTO H\r\n" + t + '\r\nPRINT "after"\r\nEND\r\nH:\r\nPRINT "E"; ERR\r\nRESUME NEXT\r\n')
               for i, t in enumerate(DEVICE_STMTS)]
     progs += [("tour:%d" % i, t) for i, t in enumerate(tour.TOUR + tour.ODD)]
+    # source FILES that are not valid UTF-8 (old sources in a DOS code page): bytes, not text
+    progs += [("bytes:%d" % i, t) for i, t in enumerate([b'PRINT "\xff"\r\nPRINT "ok"\r\n', b'\xfe\xff', b'REM \x80\x81\r\nPRINT 1\r\n',
+                                                         b'A$ = "caf\xe9"\r\nPRINT LEN(A$)\r\n', b'PRINT 1 \xc3\r\n', b'\xef\xbb\xbfPRINT 2\r\n'])]
     cp = [("corpus:" + c["src"], c["text"]) for c in corpus.programs()]
     rng.shuffle(cp)
     progs += cp[: (len(cp) if tier == "thorough" else 150)]
@@ -148,8 +151,12 @@ def shipped_binary_pass(rep, d, tier, rng):
         os.makedirs(wd, exist_ok=True)
         with open(os.path.join(wd, "IN.TXT"), "w") as f:
             f.write(FILES["IN.TXT"])
-        with open(os.path.join(wd, "P.BAS"), "w", newline="") as f:
-            f.write(text)
+        if isinstance(text, bytes):
+            with open(os.path.join(wd, "P.BAS"), "wb") as f:
+                f.write(text)
+        else:
+            with open(os.path.join(wd, "P.BAS"), "w", newline="") as f:
+                f.write(text)
         env = {k: v for k, v in os.environ.items() if k not in ("SERVER_NAME", "PATH_TRANSLATED")}
         env["RUST_BACKTRACE"] = "0"
         try:
@@ -168,7 +175,7 @@ def shipped_binary_pass(rep, d, tier, rng):
         elif rc == 101 or "panicked at" in err or rc < 0:
             stats["panic"] += 1
             loc = err.split("panicked at ", 1)[1].split(":\n")[0].split("\n")[0] if "panicked at " in err else "signal"
-            rep.violation({"case": fam, "rendered_text": text, "stdin": "1\r\nabc, 2\r\n", "observed": {"exit": rc, "stderr": err},
+            rep.violation({"case": fam, "rendered_text": text if isinstance(text, str) else repr(text), "stdin": "1\r\nabc, 2\r\n", "observed": {"exit": rc, "stderr": err},
                            "expected": "the shipped program ends every accepted program normally or with 'Runtime error.' - never a panic"},
                           {"fam:shipped", "panic", "panic_at:" + loc.replace("/repo/", "").split(":")[0]}, name="shipped")
         elif "Runtime error" in err:
